@@ -8,11 +8,13 @@ package sv
 
 import (
 	"bytes"
+	"context"
 	"encoding/xml"
 	"errors"
 	"fmt"
 	"io"
 	"strings"
+	"sync"
 	"time"
 
 	"mellium.im/xmlstream"
@@ -314,13 +316,44 @@ type Spec struct {
 	Mode   int      `json:"mode"`   // 0 programs, 1 multiplexer
 	Progs  [][]Op   `json:"progs,omitempty"`
 	Regs   []MuxReg `json:"regs,omitempty"`
-	Label  string   `json:"label,omitempty"`
+	// requests of this session that are outstanding while the script is served
+	Pend  []PendSpec `json:"pend,omitempty"`
+	Label string     `json:"label,omitempty"`
+}
+
+// PendSpec is a SendIQ / SendMessage / SendPresence call that is waiting for
+// its response when Serve starts.
+type PendSpec struct {
+	ID     string `json:"id"`
+	Kind   string `json:"kind"`            // iq | message | presence
+	Space  string `json:"space,omitempty"` // name space of the start element handed to the call
+	Type   string `json:"type"`
+	Cancel bool   `json:"cancel,omitempty"` // its context is cancelled (but the call has not returned yet)
+	Prog   []Op   `json:"prog,omitempty"`   // what the caller reads of the response before closing it
+}
+
+// DivObs is an element the session offered to a waiter instead of the handler.
+type DivObs struct {
+	Taken bool   `json:"taken"`
+	ID    string `json:"id,omitempty"` // the waiter's id (taken only)
+	Seen  []RRes `json:"seen,omitempty"`
+}
+
+// Start is the first token the waiter read.
+func (d DivObs) Start() *STok {
+	if len(d.Seen) > 0 && d.Seen[0].Tok != nil && d.Seen[0].Tok.K == 1 {
+		return d.Seen[0].Tok
+	}
+	return nil
 }
 
 type Obs struct {
 	Ret      EClass   `json:"ret"`
 	Invs     []InvObs `json:"invs,omitempty"`
 	Out      string   `json:"out"` // raw bytes written
+	Base     int      `json:"base,omitempty"` // bytes written by the outstanding calls before Serve started
+	Divs     []DivObs `json:"divs,omitempty"` // elements offered to waiters, in order
+	Waiting  []bool   `json:"waiting,omitempty"` // per outstanding call: still without a response when Serve ended
 	Wire     []STok   `json:"-"`   // tokens written before the closing tag, a trailing stream error removed
 	Closed   bool     `json:"closed"`
 	WireErr  string   `json:"wire_error,omitempty"` // condition of a trailing <stream:error/>
@@ -394,6 +427,16 @@ func Run(sp Spec) Obs {
 		o.Invs[k].Ret = Classify(err)
 		return err
 	})
+	var pw *pendWorld
+	if len(sp.Pend) > 0 {
+		pw = startPending(sess, sp.Pend)
+		defer pw.stop()
+		if pw.err != "" {
+			o.SetupErr = pw.err
+			return o
+		}
+		o.Base = c.out.Len()
+	}
 	var ret error
 	done := hx.WithTimeout(10*time.Second, func() {
 		o.Panic = hx.Catch(func() { ret = sess.Serve(h) })
@@ -402,12 +445,169 @@ func Run(sp Spec) Obs {
 		o.Hang = true
 		return o
 	}
+	if pw != nil {
+		if !pw.finish(&o) {
+			o.Hang = true
+			return o
+		}
+	}
 	o.Ret = Classify(ret)
 	o.Out = c.out.String()
-	o.Wire, _, o.WireErr, o.WireBad = ParseWire(c.out.Bytes(), sp.NS)
+	o.Wire, _, o.WireErr, o.WireBad = ParseWire(c.out.Bytes()[o.Base:], sp.NS)
 	// the closing tag is written raw, whatever the handler left open
 	o.Closed = strings.HasSuffix(strings.TrimSpace(o.Out), "</stream:stream>")
 	return o
+}
+
+// ---- outstanding requests ----
+
+const pointWaiting = "sendresp.select.before" // the request is registered and sent, the call is about to wait
+
+type pendWorld struct {
+	g       *hx.Gate
+	err     string
+	mu      sync.Mutex
+	taken   []DivObs // responses received by waiters, in order of receipt
+	got     []bool
+	cancels []context.CancelFunc
+	dones   []chan struct{}
+}
+
+type respReader struct {
+	r    xml.TokenReader
+	seen *[]RRes
+}
+
+func (r respReader) Token() (xml.Token, error) {
+	tok, err := r.r.Token()
+	rr := RRes{Err: Classify(err)}
+	if tok != nil {
+		s := FromXML(xml.CopyToken(tok))
+		rr.Tok = &s
+	}
+	*r.seen = append(*r.seen, rr)
+	return tok, err
+}
+func (respReader) EncodeToken(xml.Token) error                     { return nil }
+func (respReader) Encode(interface{}) error                        { return nil }
+func (respReader) EncodeElement(interface{}, xml.StartElement) error { return nil }
+
+// startPending issues the calls one after the other and returns once each of
+// them is registered, sent and waiting. The calls whose context is to be
+// cancelled are parked just before they start waiting and cancelled there, so
+// that their registration outlives their context for the whole of Serve.
+func startPending(sess *xmpp.Session, pend []PendSpec) *pendWorld {
+	pw := &pendWorld{g: hx.NewGate(), got: make([]bool, len(pend))}
+	xmpp.VerifSetHook(pw.g.Hook)
+	issue := func(i int) {
+		ps := pend[i]
+		ctx, cancel := context.WithCancel(context.Background())
+		pw.cancels = append(pw.cancels, cancel)
+		done := make(chan struct{})
+		pw.dones = append(pw.dones, done)
+		start := xml.StartElement{Name: xml.Name{Space: ps.Space, Local: ps.Kind},
+			Attr: []xml.Attr{{Name: xml.Name{Local: "type"}, Value: ps.Type}, {Name: xml.Name{Local: "id"}, Value: ps.ID}}}
+		payload := xml.StartElement{Name: xml.Name{Space: "urn:example:q", Local: "query"}}
+		r := xmlstream.Wrap(xmlstream.Wrap(nil, payload), start)
+		go func() {
+			defer close(done)
+			var resp xmlstream.TokenReadCloser
+			var err error
+			switch ps.Kind {
+			case "message":
+				resp, err = sess.SendMessage(ctx, r)
+			case "presence":
+				resp, err = sess.SendPresence(ctx, r)
+			default:
+				resp, err = sess.SendIQ(ctx, r)
+			}
+			if err != nil || resp == nil {
+				return
+			}
+			pw.mu.Lock()
+			pw.got[i] = true
+			pw.taken = append(pw.taken, DivObs{Taken: true, ID: ps.ID})
+			k := len(pw.taken) - 1
+			pw.mu.Unlock()
+			var seen []RRes
+			_ = RunOps(respReader{r: resp, seen: &seen}, ps.Prog)
+			pw.mu.Lock()
+			pw.taken[k].Seen = seen
+			pw.mu.Unlock()
+			_ = resp.Close()
+		}()
+	}
+	n := 0
+	for i, ps := range pend {
+		if ps.Cancel {
+			continue
+		}
+		issue(i)
+		n++
+		if !pw.g.WaitArrived(pointWaiting, n, 10*time.Second) {
+			pw.err = "outstanding call did not reach its wait"
+			return pw
+		}
+	}
+	pw.g.Block(pointWaiting)
+	parked := 0
+	for i, ps := range pend {
+		if !ps.Cancel {
+			continue
+		}
+		issue(i)
+		parked++
+		if !pw.g.WaitParked(pointWaiting, parked, 10*time.Second) {
+			pw.err = "outstanding call did not reach its wait"
+			return pw
+		}
+		pw.cancels[len(pw.cancels)-1]()
+	}
+	return pw
+}
+
+// finish is called when Serve has returned: what was offered to whom is read
+// off the yield-point log, then the remaining calls are cancelled.
+func (pw *pendWorld) finish(o *Obs) bool {
+	log := pw.g.Log()
+	pw.mu.Lock()
+	taken := append([]DivObs(nil), pw.taken...)
+	for _, g := range pw.got {
+		o.Waiting = append(o.Waiting, !g)
+	}
+	pw.mu.Unlock()
+	ti := 0
+	for _, pt := range log {
+		switch pt {
+		case "serve.awaitclose.before":
+			if ti < len(taken) {
+				o.Divs = append(o.Divs, taken[ti])
+				ti++
+			} else {
+				o.Divs = append(o.Divs, DivObs{Taken: true})
+			}
+		case "serve.offer.ctxdone":
+			o.Divs = append(o.Divs, DivObs{Taken: false})
+		}
+	}
+	return pw.stop()
+}
+
+func (pw *pendWorld) stop() bool {
+	for _, c := range pw.cancels {
+		c()
+	}
+	pw.g.UnblockAll()
+	ok := true
+	for _, d := range pw.dones {
+		select {
+		case <-d:
+		case <-time.After(10 * time.Second):
+			ok = false
+		}
+	}
+	xmpp.VerifSetHook(nil)
+	return ok
 }
 
 // ParseWire tokenises what the session wrote. xmlns attributes are dropped, a
@@ -641,7 +841,10 @@ func Encodable(sp Spec, o Obs) bool {
 	if o.Panic != "" || o.Hang || o.SetupErr != "" || o.WriteErr || o.WireBad {
 		return false
 	}
-	if len(o.Invs) > 255 || len(sp.Progs) > 255 {
+	if len(o.Invs) > 255 || len(sp.Progs) > 255 || len(o.Divs) > 255 {
+		return false
+	}
+	if DivertedDirty(sp) {
 		return false
 	}
 	return true
@@ -700,6 +903,31 @@ func EncodeCase(sp Spec, o Obs, muxFixed bool) []byte {
 		}
 	}
 	b.Toks(o.Wire)
+	return b.Bytes()
+}
+
+// EncodeCaseP is EncodeCase followed by the outstanding requests and the
+// observed diversions (parse_case_p).
+func EncodeCaseP(sp Spec, o Obs, muxFixed bool) []byte {
+	var b Blob
+	b.Write(EncodeCase(sp, o, muxFixed))
+	b.Byte(len(sp.Pend))
+	for _, ps := range sp.Pend {
+		b.Str(ps.ID)
+		b.Str(ps.Space)
+		b.Str(ps.Kind)
+		b.Bool(!ps.Cancel)
+		b.Prog(ps.Prog)
+	}
+	b.Byte(len(o.Divs))
+	for _, d := range o.Divs {
+		b.Bool(d.Taken)
+		b.Str(d.ID)
+		b.U16(len(d.Seen))
+		for _, r := range d.Seen {
+			b.RRes(r)
+		}
+	}
 	return b.Bytes()
 }
 
